@@ -210,6 +210,17 @@ func Run[S any](t *testing.T, p Prop[S]) {
 	})
 }
 
+// Record adds one case of a non-rapid enumeration to the statistics of property id.
+func Record[S any](id string, key string, o Outcome, s S) {
+	st := statsFor(id, "")
+	st.record(hashBytes([]byte(key)), o, func() []byte { b, _ := json.Marshal(s); return b })
+}
+
+// WriteFail stores a failing scenario found outside rapid as fail.json.
+func WriteFail[S any](id, sub string, s S, msg string) {
+	writeReplay("fail.json", id, sub, s, msg)
+}
+
 // Replay executes the scenario stored in path without rapid.
 func Replay[S any](t *testing.T, p Prop[S], path string) {
 	b, err := os.ReadFile(path)
